@@ -12,8 +12,8 @@ ENGINE_INVARIANTS = ['Correct', 'ErrCorrect', 'StreamPrefix', 'PullBound', 'Prot
 ENGINE_PROPERTIES = ['Prompt', 'SourcesUnchanged', 'OutGrows']
 
 
-def engine_cfg(path, queries, recsA, recsB='R_none', maxA=2, maxB=0, hdrmodes=(False,), breakpoints=(0,), emit=True, mut='', invariants=None, properties=None, cyclic=False, spec=None, constraints=(), next_=None):
-    lines = (['SPECIFICATION ' + spec] if spec else ['INIT Init', 'NEXT %s' % (next_ or 'Next')]) + ['CONSTANTS', '  Cyclic = %s' % ('TRUE' if cyclic else 'FALSE'),
+def engine_cfg(path, queries, recsA, recsB='R_none', maxA=2, maxB=0, hdrmodes=(False,), breakpoints=(0,), emit=True, mut='', invariants=None, properties=None, cyclic=False, spec=None, constraints=(), next_=None, count=False):
+    lines = (['SPECIFICATION ' + spec] if spec else ['INIT CountInit', 'NEXT CountNext', 'POSTCONDITION PrintCounts'] if count else ['INIT Init', 'NEXT %s' % (next_ or 'Next')]) + ['CONSTANTS', '  Cyclic = %s' % ('TRUE' if cyclic else 'FALSE'),
              '  Queries <- %s' % queries, '  RecsA <- %s' % recsA, '  RecsB <- %s' % recsB,
              '  MaxA = %d' % maxA, '  MaxB = %d' % maxB,
              '  HdrModes = {%s}' % ', '.join('TRUE' if h else 'FALSE' for h in hdrmodes),
@@ -29,6 +29,25 @@ def engine_cfg(path, queries, recsA, recsB='R_none', maxA=2, maxB=0, hdrmodes=(F
     with open(path, 'w') as f:
         f.write('\n'.join(lines) + '\n')
     return path
+
+
+def action_counts(run, label, queries, recsA, recsB='R_none', maxA=2, maxB=0, hdrmodes=(False,), breakpoints=(0,)):
+    """Thorough tier: how often each action of the machine is taken, on a reduced instance of the family (TLC's -coverage cannot be used with
+    this specification, see MC_Engine.tla); one worker, counters in TLC registers."""
+    d = tlcrun.new_scratch('engcount')
+    cfg = engine_cfg(os.path.join(d, label + '.cfg'), queries, recsA, recsB, min(maxA, 2), min(maxB, 1), hdrmodes[:1], breakpoints[:2], emit=False, invariants=[], properties=[], count=True)
+    res = tlcrun.run_tlc('MC_Engine', cfg, workers=1, timeout=3600, heap='8g')
+    counts = {}
+    for c in res.cases:
+        if 'action_counts' in c:
+            counts = {name: n for name, n in c['action_counts']}
+    if not counts:
+        core.machinery_failure('no action counts printed for ' + label)
+    res.cases = []
+    res.coverage = {'MC_Engine!' + k: v for k, v in counts.items()}
+    run.add_tlc('MC_Engine:' + label + ':action-counts', res)
+    run.notes.setdefault('action_counts', {})[label] = counts
+    return counts
 
 
 def case_key(case):
@@ -177,7 +196,9 @@ def run_family(run, label, queries, recsA, recsB='R_none', maxA=2, maxB=0, hdrmo
         # sampling of a product too large to enumerate: random behaviours (= random cases), seeded by VERIF_SEED
         res = tlcrun.run_tlc('MC_EngineSim', cfg, timeout=timeout, heap='24g', case_sink=sink, simulate=simulate, depth=200, seed=run.seed, workers=8)
     else:
-        res = tlcrun.run_tlc('MC_Engine', cfg, coverage=(run.tier != 'quick'), timeout=timeout, heap='24g', case_sink=sink)
+        res = tlcrun.run_tlc('MC_Engine', cfg, timeout=timeout, heap='24g', case_sink=sink)
+        if run.tier != 'quick':
+            action_counts(run, label, queries, recsA, recsB, maxA, maxB, hdrmodes, breakpoints)
     run.add_tlc('MC_Engine:' + label + (':simulate' if simulate else ''), res)
     traces = rp.finish()
     if rp.ncases == 0:
@@ -223,7 +244,7 @@ def run_family_js(run, label, queries, recsA, recsB='R_none', maxA=2, maxB=0, hd
     opts = dict(opts or {})
     d = tlcrun.new_scratch('engjs')
     cfg = engine_cfg(os.path.join(d, label + '.cfg'), queries, recsA, recsB, maxA, maxB, hdrmodes, (0,))
-    res = tlcrun.run_tlc('MC_Engine', cfg, coverage=(run.tier != 'quick'), timeout=7200, heap='24g')
+    res = tlcrun.run_tlc('MC_Engine', cfg, timeout=7200, heap='24g')
     run.add_tlc('MC_Engine:' + label, res)
     cases = res.cases
     reqs = []
